@@ -361,3 +361,146 @@ def _simmon(m, ob):
 
 
 BUILDERS['__simmon__'] = _simmon
+
+
+# ---------------------------------------------------------------------------------------------------- Cluster (C01, C02, C09)
+def _idx(m, label):
+    v = m.d.get('probe!' + label)
+    if isinstance(v, dict):
+        return {int(k): x for k, x in v['at'].items()}
+    return {}
+
+
+def _cluster_check(cl):
+    """the concrete pool invariant and counters (the same statements as contracts/cluster.py: pool_invariant, counter_invariant)"""
+    res = cl._resources
+    bad = []
+    where = {}
+    for pool in ('available', 'ingest', 'occupied'):
+        for mm in res[pool]:
+            where.setdefault(mm.id, []).append(pool)
+    for ob, lst in res['idle'].items():
+        for mm in lst:
+            where.setdefault(mm.id, []).append(f"idle[{ob}]")
+    for mm in cl.machines:
+        if len(where.get(mm.id, [])) != 1:
+            bad.append(f"machine {mm.id} is in {where.get(mm.id, [])}")
+    for k in where:
+        if k not in [mm.id for mm in cl.machines]:
+            bad.append(f"{k} is in a pool but is not a machine of the cluster")
+    u = cl._usage_data
+    run = cl._tasks['running']
+    if u['running_tasks'] != len(run):
+        bad.append(f"running counter {u['running_tasks']} != {len(run)}")
+    if u['available'] != len(cl.machines) - len(run):
+        bad.append(f"available counter {u['available']} != machines {len(cl.machines)} - running {len(run)}")
+    nfin = sum(1 for v in cl._tasks['finished'].values() if v)
+    if u['finished_tasks'] != nfin:
+        bad.append(f"finished counter {u['finished_tasks']} != {nfin}")
+    return bad
+
+
+def _cluster_snapshot(cl):
+    res = cl._resources
+    return dict(available=sorted(x.id for x in res['available']), ingest=sorted(x.id for x in res['ingest']),
+                occupied=sorted(x.id for x in res['occupied']), idle={k: sorted(x.id for x in v) for k, v in res['idle'].items()},
+                running=sorted(t.id for t in cl._tasks['running']), finished={t.id: v for t, v in cl._tasks['finished'].items()},
+                usage=dict(cl._usage_data), provisioned=cl.num_provisioned_obs)
+
+
+def _build_cluster(m):
+    import shutil
+    from topsim.core.config import Config
+    from topsim.core.cluster import Cluster
+    from topsim.core.task import Task, TaskStatus
+    mach = sorted(_idx(m, 'self.machines.cnt'))
+    pools = {p: _idx(m, f'self._resources.{p}.cnt') for p in ('available', 'ingest', 'occupied')}
+    extra = set()
+    for p in pools.values():
+        extra |= set(p)
+    idle_keys = sorted(_idx(m, 'self._resources.idle.keys'))
+    vc = m.d.get('probe!self._resources.idle.vcnt')
+    idle = {}
+    if isinstance(vc, dict):
+        for o, inner in vc['at'].items():
+            if int(o) in idle_keys:
+                idle[int(o)] = [int(i) for i, c in inner.items() for _ in range(int(c))]
+                extra |= set(idle[int(o)])
+    mach = sorted(set(mach) | extra) or [1, 2]
+    d = _scratch()
+    p, _ = _write_cfg(d, 'seconds', [{"name": "a", "start": 0, "duration": 2, "instrument_demand": 1, "data_product_rate": 1}],
+                      machines={f"m{i}": {"flops": 2, "compute_bandwidth": 2} for i in mach})
+    env = simple_env(int(m.num('now', 0)))
+    cl = Cluster(env, Config(p))
+    shutil.rmtree(d, ignore_errors=True)
+    by = {int(mm.id[1:]): mm for mm in cl.machines}
+    res = cl._resources
+    for pool in ('available', 'ingest', 'occupied'):
+        res[pool][:] = [by[i] for i, c in sorted(pools[pool].items()) for _ in range(int(c)) if i in by]
+    for o in idle_keys:
+        res['idle'][f"obs{o}"] = [by[i] for i in idle.get(o, []) if i in by]
+    tasks = {}
+    def task(i):
+        if i not in tasks:
+            tasks[i] = Task(f"t{i}", 0, 3, None, [], flops=2, task_data=0, io={})
+        return tasks[i]
+    for i, c in sorted(_idx(m, 'self._tasks.running.cnt').items()):
+        for _ in range(int(c)):
+            t = task(i)
+            t.task_status = TaskStatus.RUNNING
+            cl._tasks['running'].append(t)
+    fv = _idx(m, 'self._tasks.finished.vals')
+    for i in sorted(_idx(m, 'self._tasks.finished.keys')):
+        cl._tasks['finished'][task(i)] = (str(fv.get(i)) == 'True')
+    for k in ('available', 'running_tasks', 'finished_tasks', 'ingest'):
+        cl._usage_data[k] = m.num(f'self._usage_data.{k}', cl._usage_data[k])
+    cl.num_provisioned_obs = m.num('self.num_provisioned_obs', 0)
+    return env, cl, by, task
+
+
+def _cluster_replay(fn):
+    def run(m, ob):
+        import inspect
+        env, cl, by, task = _build_cluster(m)
+        pre_bad = _cluster_check(cl)
+        if pre_bad:
+            return dict(violated=False, note='the reconstructed pre-state does not satisfy the pool invariant (the model leaves parts of it '
+                        'unspecified): not replayable', pre_state_problems=pre_bad[:3])
+        f = getattr(cl, fn)
+        sig = [p for p in inspect.signature(f).parameters if p != 'c']
+        args = {}
+        for p in sig:
+            if p in ('machine',):
+                i = int(m.num('machine', 0))
+                args[p] = by.get(i) or type(next(iter(by.values())))(f"m{i}", 1, 1, 1, 1)
+            elif p in ('task',):
+                args[p] = task(int(m.num('task', 99)))
+            elif p in ('observation', 'name'):
+                args[p] = f"obs{int(m.num(p, 0))}"
+            elif p == 'ingest':
+                args[p] = m.boolean('ingest')
+            elif p in ('size', 'demand', 'pipeline_demand', 'max_ingest_resources'):
+                args[p] = int(m.num(p, 1))
+            elif p == 'predecessor_allocations':
+                args[p] = None
+        before = _cluster_snapshot(cl)
+        raised = None
+        try:
+            r = f(**args)
+            if inspect.isgenerator(r):
+                env.process(r)
+                env.run(until=env.now + 1)
+        except Exception as e:
+            raised = f"{type(e).__name__}: {e}"
+        after = _cluster_snapshot(cl)
+        bad = _cluster_check(cl)
+        if raised and after != before and 'unchanged' in ob:
+            bad.append(f"the call was refused ({raised}) but changed the state")
+        return dict(violated=bool(bad), function=fn, arguments={k: getattr(v, 'id', v) for k, v in args.items()}, raised=raised,
+                    before=before, after=after, observed=bad[:4])
+    return run
+
+
+for _fn in ('provision_batch_resources', 'release_batch_resources', '_set_machine_occupied', '_set_machine_available', '_add_idle_resource',
+            '_reset_idle_resources', '_update_available_resources', 'allocate_task_to_cluster', 'clean_up_ingest'):
+    BUILDERS['Cluster.' + _fn] = _cluster_replay(_fn)
